@@ -1187,6 +1187,13 @@ class Interp(BuiltinsMixin, StmtMixin, DictMixin):
             a = self.concrete(lo) if lo else None
             b = self.concrete(hi) if hi else None
             return VTuple(obj.items[a:b])
+        if isinstance(obj, VRef) and obj.cls:
+            # obj[lo:hi] on an object whose __getitem__ is hooked
+            for c in self.uni.repo.mro(obj.cls) or [obj.cls]:
+                hk = self.uni.method_hooks.get(f"{c}.__getitem__")
+                if hk is not None:
+                    return hk(self, obj, [VPy(("slice", lo, hi))], {}, st,
+                              fr)
         raise Unsupported(f"slice of {obj}")
 
     # ------------------------------------------------------------------
